@@ -1062,26 +1062,8 @@ class Interp:
                         return args[2]
                     return TOP
                 return TOP
-            if n in ("groupby", "itertools.groupby") and args and isinstance(args[0], (list, tuple)):
-                # consecutive runs of equal keys, as itertools.groupby does
-                keyf = kwargs.get("key", args[1] if len(args) > 1 else None)
-                runs = []
-                for item in args[0]:
-                    if keyf is None:
-                        k = item
-                    elif isinstance(keyf, Closure) and len(keyf.node.args.args) == 1:
-                        sub = dict(keyf.env)
-                        sub[keyf.node.args.args[0].arg] = item
-                        k = self.eval(keyf.node.body, sub, keyf.func)
-                    else:
-                        return TOP
-                    if k is TOP:
-                        return TOP
-                    if runs and (runs[-1][0] is k or (not isinstance(k, Obj) and runs[-1][0] == k)):
-                        runs[-1][1].append(item)
-                    else:
-                        runs.append((k, [item]))
-                return runs
+            if n == "groupby" and args and isinstance(args[0], (list, tuple)):
+                return self._groupby(args, kwargs)
             if n == "reversed" and len(args) == 1 and isinstance(args[0], (list, tuple)):
                 return list(reversed(args[0]))
             if n == "zip":
@@ -1130,6 +1112,8 @@ class Interp:
                 if self.strict_self_calls:
                     raise Unsupported("call of %s.%s(), which the model neither knows nor interprets" % (norm(recv), m))
                 return None  # not inlined: treated as a passing no-op
+            if norm(fn) == "itertools.groupby" and args and isinstance(args[0], (list, tuple)):
+                return self._groupby(args, kwargs)
             base = self.eval(recv, env, f) if base_pre is _NOT_EVALUATED else base_pre
             if isinstance(base, Obj) and "__cls__" in base.attrs and m not in base.attrs:
                 tgt = self.hier.resolve(base.attrs["__cls__"], m)
@@ -1184,6 +1168,29 @@ class Interp:
                 raise Unsupported("method %s() of an abstract %s, whose effect the interpreter does not model" % (m, type(base).__name__))
             return TOP
         return TOP
+
+    def _groupby(self, args, kwargs):
+        """itertools.groupby on a known sequence: consecutive runs of equal keys."""
+        keyf = kwargs.get("key", args[1] if len(args) > 1 else None)
+        runs = []
+        for item in args[0]:
+            if keyf is None:
+                k = item
+            elif isinstance(keyf, Closure) and len(keyf.node.args.args) == 1:
+                sub = dict(keyf.env)
+                sub[keyf.node.args.args[0].arg] = item
+                k = self.eval(keyf.node.body, sub, keyf.func)
+            elif isinstance(keyf, PyFunc):
+                k = keyf.fn(item)
+            else:
+                return TOP
+            if k is TOP:
+                return TOP
+            if runs and (runs[-1][0] is k or (not isinstance(k, Obj) and runs[-1][0] == k)):
+                runs[-1][1].append(item)
+            else:
+                runs.append((k, [item]))
+        return runs
 
     def call_def_closure(self, c, args, kwargs):
         sub = dict(c.env)                      # late binding: the enclosing variables as they are now
